@@ -11,6 +11,7 @@ RULE = ('seeded programs of the forwarding grammar (outer in U({a,b},2) with a s
         'after the calls; decoys) + every taint construct x {before, after} x {top-level, nested, comprehension}. Each untainted '
         'program whose signature was refined is executed on all non-colliding shapes disjoint from the explicitly passed names; '
         'each definitely tainted program must keep its own star parameter and advertise none of the callee parameters of that kind. '
+        'Grammar additions: wrappers that are callable instances or classmethods, callees wrapped by lru_cache / functools.wraps or kept in a local variable, calls and rebindings inside except handlers (with and without a name), nonlocal chains, a module global named like the parameter that holds the callee, callees of up to four parameters. '
         'Non-trivial: a program whose discovered signature differs from the plain one; distinct by (route, signatures, calls, taints).')
 ASSUMPTIONS = ['programs passing foreign or doubled star arguments are executed only when one fixed foreign value satisfies the callee for all calls',
                'read-only uses of **kwargs, method calls on *args, comprehension targets of the same name and taints that follow a call placed in a nested scope are not classified by the statement: either outcome is accepted',
